@@ -300,11 +300,45 @@ def z3_case(res, r, wd):
         res.add_distinct(common.digest('z3' + text + repr(opts)))
 
 
+def alias_case(res, r, wd):
+    """The input file is left unmodified also when the output path reaches
+    it under another spelling: through a symbolic link to its directory, or
+    because the named input file is itself a link to the output file."""
+    case = make_case(r)
+    text, rules, opts = case[0], case[1], case[5]
+    os.makedirs(wd, exist_ok=True)
+    how = r.choice(['directory-link', 'input-is-link'])
+    if how == 'directory-link':
+        os.symlink(wd, os.path.join(wd, 'alias'))
+        run = realrun.run_ddsmt(wd, text, rules, opts=opts,
+                                infile_name='in.smt2',
+                                outfile_name='alias/in.smt2', timeout=60)
+    else:
+        run = realrun.run_ddsmt(wd, text, rules, opts=opts,
+                                infile_name='latest.smt2',
+                                infile_link_target='bug.smt2',
+                                outfile_name='bug.smt2', timeout=60)
+    res.count('evaluations')
+    res.count('alias_runs')
+    if run.timed_out:
+        res.count('runs_watchdog')
+        return
+    if not run.infile_unchanged:
+        res.violation(
+            f'input-file-modified:output-path-is-an-alias:{how}',
+            f'input and output name the same file ({how}); ddSMT exited with '
+            f'status {run.rc} and the input file was overwritten',
+            {'input': text, 'rules': rules, 'opts': opts, 'how': how,
+             'stderr_tail': run.stderr[-400:]})
+
+
 def shard(args):
     res = common.ShardResult()
     r = common.rng('c01', args['shard'])
     base = common.scratch_dir('c01')
     try:
+        if args['shard'] % 4 == 0:
+            alias_case(res, r, os.path.join(base, 'alias'))
         for i in range(args['n']):
             case = make_case(r, lexical_corner=(i % 6 == 5))
             wd = os.path.join(base, f'run{i}')
